@@ -17,7 +17,8 @@ REQUIRED_THEOREMS = ["Gv.Props.C14." + n for n in [
     "listMutationsVsRef_eq_spec", "wildcard_or_compatible_is_no_substitution", "entropy_eq_spec",
     # MaxCharStats / Consensus on the actual count entries of a column (first-appearance order = some map order)
     "countUpper_eq_tally", "countUpper_keys_nodup", "countUpper_lookup", "countUpper_pos",
-    "maxCharSite_order_independent", "maxCharSite_is_argmax"]]
+    "maxCharSite_order_independent", "maxCharSite_is_argmax",
+    "countProfile_panic_iff", "countProfile_eq_spec", "profileCount_eq_spec"]]
 LEVEL_TEXT = ("Lean theorems: MaxCharStats' selection loop returns the same result for EVERY iteration order of the count entries "
               "(Go map order = arbitrary permutation) and equals the naive argmax with the smallest-byte tie rule, also stated on the actual "
               "count entries of a column (distinct keys, naive counts, positive); every counting "
@@ -36,8 +37,10 @@ RULE = ("alignments of 1..6 rows x 1..6 columns over small alphabets with ties f
 PARTIAL = ["Entropy: the occurrence counts, the summation order and the error/NaN cases are proved (entropy_eq_spec); the float sum itself "
            "(math.Log) is compared with tolerance 1e-12, rounding is not modelled; AvgAllelesPerSite: the two integer counters are "
            "proved, the float64 quotient is compared with tolerance",
-           "Pssm and count profiles (profile.go), and the profile-dependent outputs (numnew, numboth) of the unique gap / mutation "
-           "counters, are exercised by the harness for determinism only, not modelled",
+           "Pssm, and the profile-dependent outputs (numnew, numboth) of the unique gap / mutation counters, are exercised by the "
+           "harness for determinism only, not modelled (the count profile itself and Count(r, site) are modelled and proved); "
+           "CountProfile.CountsAt(i) tests `i > len(p.counts)`, so i = len(p.counts) is an index panic instead of an error (a "
+           "character index, not a site index: outside the property text)",
            "the model is stated for ASCII residues: CharStats / InformativeSites index 130-entry slices with unicode.ToUpper(rune) "
            "(bytes >= 130 panic in Go; only NumMutationsUniquePerSequence models that panic explicitly)",
            "CountDifferences on an alignment without any sequence panics in Go (make([]map[string]int, -1)): modelled as it is "
@@ -85,6 +88,9 @@ def gen(rng, tier):
         yield Case("uniques", [alpha, rs], n > 1, "uniques")
         a, b = rng.choice(rows)[1], rng.choice(rows)[1]
         yield Case("refmuts", [alpha, a, b], True, "refmuts")
+        # count profile: a character of the alignment or another one, site in [-1, L]
+        ch = rng.choice([ord(rng.choice(rng.choice(rows)[1])), ord(rng.choice(NT + AA)), rng.choice([0, 129, 130, 200])])
+        yield Case("profile", [alpha, rs, ch, rng.choice([-1, 0, L - 1, L, rng.randint(0, L)])], ch < 130, "profile")
     # an alignment without sequences: CountDifferences evaluates make(.., -1) (modelled as a panic); the others return
     yield Case("countdiffs", [1, "_"], False, "countdiffs-empty")
     yield Case("uniques", [1, "_"], False, "uniques-empty")
@@ -139,6 +145,12 @@ def shrink(c):
                 yield Case("refmuts", [a[0], a[1][:j] + a[1][j + 1:], a[2][:j] + a[2][j + 1:]])
         return
     if c.op == "compat":
+        return
+    if c.op == "profile":
+        rows = [tuple(r.split(":", 1)) for r in a[1].split(",")]
+        for i in range(len(rows)):
+            if len(rows) > 1:
+                yield Case(c.op, [a[0], rows_str(rows[:i] + rows[i + 1:])] + a[2:])
         return
     rows = [] if a[1] == "_" else [tuple(r.split(":", 1)) for r in a[1].split(",")]
     for i in range(len(rows)):
